@@ -269,7 +269,25 @@ def pick_item(rng, p_corpus=0.6, max_len=6000):
         flags["normalize_names"] = True
     if rng.random() < 0.25:
         flags["silent"] = False
+    if rng.random() < 0.06:
+        flags["log_level"] = 10       # logging.DEBUG: the first constructor of a process configures the root logger
     return {"ddl": ddl, "flags": flags, "run": {}, "src": "gen:" + ",".join(shape)}
+
+
+def same_length_variant(rng, ddl):
+    """Another text of exactly the same length (one letter changed): anything keyed by the size or the address of a
+    buffer rather than by its content confuses the two."""
+    idx = [i for i, ch in enumerate(ddl) if ch.isalpha() and ch.isascii()]
+    if not idx:
+        return ddl
+    for _ in range(8):
+        i = rng.choice(idx)
+        ch = ddl[i]
+        new = chr(ord(ch) + 1) if ch not in "zZ" else chr(ord(ch) - 1)
+        out = ddl[:i] + new + ddl[i + 1:]
+        if out != ddl:
+            return out
+    return ddl
 
 
 def pick_run_kwargs(rng, modes, base=None):
